@@ -87,3 +87,7 @@ Fixpoint forall2b {A B} (f : A -> B -> bool) (a : list A) (b : list B) : bool :=
   | x :: a', y :: b' => f x y && forall2b f a' b'
   | _, _ => false
   end.
+
+(* |a/b - c/d| <= tn/td (absolute), b, d, td > 0 *)
+Definition qclose_abs (a b c d tn td : Z) : bool :=
+  Z.abs (a * d - c * b) * td <=? tn * b * d.
